@@ -35,7 +35,7 @@ def must_see(tier):
 
 def plan(tier, seed):
     specs = []
-    nh = 14 if tier == 'quick' else 160
+    nh = 36 if tier == 'quick' else 240
     for fam in families.FAMILY_NAMES:
         for impl in ('c', 'py'):
             specs.append(dict(label='%s-%s' % (fam, impl), family=fam,
@@ -64,6 +64,12 @@ def run_shard(spec, rec):
                     via_sub = (h % 3 == 1)
             ls = hist.LockStep(fam, kind, impl, rng, rec, sizes=sizes,
                                via_subclass=via_sub, structure=False)
+            if impl == 'py' and fam.vc == 'F' and h % 6:
+                # F08 (recorded finding: Py keeps doubles) would end almost
+                # every history at its first float; most histories therefore
+                # use values that are exact in single precision
+                ls.g.values = [v for v in ls.g.values
+                               if families.f32(v) == v]
             if fam.kc in INT_RANGES:
                 lo, hi = INT_RANGES[fam.kc]
 
